@@ -475,7 +475,9 @@ func runTHRESH(c *Ctx) {
 						op = token.EQL
 					}
 				}
-				return (op == token.GTR && k == 1) || (op == token.GEQ && k == 2) || (op == token.NEQ && k == 1)
+				// any form that lets every threshold ≥ 2 through and stops before dividing 1 (or 0): the thresholds
+				// are powers of the branch factor, so > 0, ≥ 1, > 1, ≥ 2, ≠ 0 and ≠ 1 all agree where it matters
+				return (op == token.GTR && (k == 0 || k == 1)) || (op == token.GEQ && (k == 1 || k == 2)) || (op == token.NEQ && (k == 0 || k == 1))
 			}
 			for _, st := range []*ssa.Store{gs, ss} {
 				tf := factsOf(st.Block())
